@@ -192,7 +192,7 @@ def prepare(repo, dest, mode):
             # a non-mod.rs module file `x.rs` looks for children in `x/`; use #[path]
             shutil.copy2(os.path.join(HARNESS_DIR, f), os.path.join(tdir, "verif_k_" + f))
             with open(target, "a", encoding="utf-8") as fh:
-                fh.write('\n#[cfg(any(kani, verif_replay))]\n#[path = "%s"]\nmod verif_k_local;\n' % os.path.join(tdir, "verif_k_" + f))
+                fh.write('\n#[cfg(any(kani, verif_replay))]\n#[path = "%s"]\npub(crate) mod verif_k_local;\n' % os.path.join(tdir, "verif_k_" + f))
             report["local_modules"].append(LOCAL_MODULES[f])
         elif f == "mod.rs":
             shutil.copy2(os.path.join(HARNESS_DIR, f), os.path.join(hk, f))
